@@ -410,7 +410,7 @@ def replay_file(ctx, plan, path):
         cli = os.path.join(ctx.scratch, 'bin-json-patch')
         subprocess.run(['go', 'build', '-o', cli, './cmd/json-patch'], cwd=stage, env=ctx.env, check=True)
         rargs += ['-opt', 'cli=%s,tmp=%s' % (cli, ctx.scratch)]
-    p = subprocess.run(rargs, input=json.dumps(line) + '\n', capture_output=True, text=True, env=ctx.env)
+    p = subprocess.run(rargs, input=json.dumps(line, separators=(',', ':')) + '\n', capture_output=True, text=True, env=ctx.env)
     print(p.stdout)
     if p.returncode == 2 and re.search(r'^fatal error: |^runtime: goroutine stack exceeds', p.stderr, re.M):
         print('VIOLATION property=%s replay=%s' % (ctx.prop, path))
